@@ -37,6 +37,9 @@ inline void install_terminate() {
    std::set_terminate([]() {
       std::fprintf(out(), "{\"e\":\"Terminated\"}\n");
       std::fflush(out());
+      try { if (std::current_exception()) std::rethrow_exception(std::current_exception()); }
+      catch (const std::exception& e) { std::fprintf(stderr, "terminate: %s\n", e.what()); }
+      catch (...) { std::fprintf(stderr, "terminate: unknown exception\n"); }
       _exit(70);
    });
 }
